@@ -23,10 +23,26 @@
  *                            every block is also decoded by nghttp2's inflater: trailing "ng=ok|ng=FAIL.."
  *   ngenc <op>...            nghttp2 deflater: same syntax, "C<n>" change_table_size
  *   ngdec <op>...            nghttp2 inflater: "B<hex>" -> "ok:<fields>" | "e", "C<n>" change_table_size
+ * glue ops (real h2.c on an in-process connection, compared with the Lean model):
+ *   resp <srvtag 0|1> <item>...   responses of one connection through h2_send_headers() /
+ *                            h2_send_hpack(); the emitted HEADERS(+CONTINUATION) frames are
+ *                            checked for framing, the block is decoded by nghttp2's inflater:
+ *        R<status>/<es>/<op><name>:<value>,...  (op: s=set i=insert a=append; hex) -> "ok:<es>:<fields>" |
+ *                            "rst" | "BADFRAMES.."
+ *        C<n>  peer SETTINGS_HEADER_TABLE_SIZE (h2_parse_frame_settings)   -> "c"
+ *        F<n>  peer SETTINGS_MAX_FRAME_SIZE                                 -> "f"
  */
 #include "first.h"
 #include "harness_common.h"
-#include "ls-hpack/lshpack.c"
+#include <fcntl.h>
+#include <unistd.h>
+#include "h2.c"                    /* static glue: h2_send_headers, h2_parse_frames, ... */
+#include "fdlog.h"
+#include "reqpool.h"
+#include "plugin.h"
+#include "burl.h"
+#include "http_date.h"
+#include "ls-hpack/lshpack.c"      /* static lshpack internals */
 #include <nghttp2/nghttp2.h>
 
 /* own tokenizer: connection histories have far more than LTV_MAXTOK tokens */
@@ -112,6 +128,24 @@ static int ng_block(nghttp2_hd_inflater *inf, const unsigned char *in, size_t in
     }
 }
 
+/* dynamic table size updates a conformant encoder owes its peer after SETTINGS changes
+ * (RFC 7541 4.2: the smallest size since the last block, then the final one) */
+struct pendupd { int have; uint32_t min, last; };
+static void pend_add(struct pendupd *p, uint32_t v) {
+    if (!p->have) { p->have = 1; p->min = p->last = v; }
+    else { if (v < p->min) p->min = v; p->last = v; }
+}
+static size_t put_int5(unsigned char *dst, uint32_t v);
+static size_t pend_emit(struct pendupd *p, unsigned char *dst) {
+    size_t n = 0;
+    if (p->have) {
+        n += put_int5(dst + n, p->min);
+        if (p->last != p->min) n += put_int5(dst + n, p->last);
+        p->have = 0;
+    }
+    return n;
+}
+
 static size_t put_int5(unsigned char *dst, uint32_t v) {  /* dynamic table size update, RFC 7541 6.3 */
     unsigned char *p = dst;
     if (v < 31) { *p++ = (unsigned char)(0x20 | v); return 1; }
@@ -129,7 +163,7 @@ static void op_conn(int mode) {
     nghttp2_hd_inflater *inf = NULL;
     if (mode) nghttp2_hd_inflate_new(&inf);
     int ngdone = 0, xbad = 0;           /* ngdone: stop comparing (diverged / inflater failed) */
-    unsigned char pend[32]; size_t npend = 0;
+    struct pendupd pu = {0};
     unsigned cap = (unsigned)atoi(hl_tok[1]);
     if (cap > 65535) cap = 65535;
     char *buf = malloc(cap ? cap : 1);     /* exact size: ASan sees any overrun */
@@ -143,7 +177,7 @@ static void op_conn(int mode) {
                 /* the peer changed its table size: a conformant encoder announces it at the
                  * start of the next block (lshpack's encoder never does: injected for nghttp2) */
                 nghttp2_hd_inflate_change_table_size(inf, c);
-                if (npend + 6 <= sizeof(pend)) npend += put_int5(pend + npend, c);
+                pend_add(&pu, c);
             }
             fputs("s ", stdout);
             continue;
@@ -178,10 +212,10 @@ static void op_conn(int mode) {
         else { printf("e%d:%s dead ", rc, nf ? mem : "-"); dead = 1; }
         free(mem);
         if (mode && !ngdone) {
-            unsigned char *nb = malloc(n + npend + 1);
-            memcpy(nb, pend, npend); memcpy(nb + npend, blk, n);
+            unsigned char *nb = malloc(n + 16);
+            size_t npend = n ? pend_emit(&pu, nb) : 0;
+            memcpy(nb + npend, blk, n);
             int nrc = ng_block(inf, nb, n + npend, &ngf);
-            if (n) npend = 0;
             free(nb);
             if (mode == 1) {
                 if (nrc != 0 || rc != LSHPACK_OK || !fl_same(&lsf, &ngf, 0)) { xbad = k; ngdone = 1; }
@@ -275,7 +309,7 @@ static void op_lsenc(void) {
     unsigned char *dst = malloc(1 << 20);
     char *hb = malloc(1 << 18);
     int ngbad = 0, ngwhere = -1;
-    unsigned char pend[32]; size_t npend = 0;
+    struct pendupd pu = {0};
     for (int k = 1; k < hl_ntok; ++k) {
         if (hl_tok[k][0] == 'C') {
             unsigned c = (unsigned)strtoul(hl_tok[k]+1, NULL, 10);
@@ -283,7 +317,7 @@ static void op_lsenc(void) {
             /* the decoding peer lowered its table size; lshpack's encoder never emits the
              * dynamic table size update RFC 7541 4.2 asks for: injected for nghttp2 only */
             nghttp2_hd_inflate_change_table_size(inf, c);
-            if (npend + 6 <= sizeof(pend)) npend += put_int5(pend + npend, c);
+            pend_add(&pu, c);
             fputs("c ", stdout);
             continue;
         }
@@ -310,9 +344,11 @@ static void op_lsenc(void) {
         else {
             ltv_puthex(dst, (size_t)(p - dst)); fputc(' ', stdout);
             if (!ngbad && nf) {
+                unsigned char pb[16];
+                size_t npend = pend_emit(&pu, pb);
                 memmove(dst + npend, dst, (size_t)(p - dst));
-                memcpy(dst, pend, npend);
-                p += npend; npend = 0;
+                memcpy(dst, pb, npend);
+                p += npend;
                 int rc = ng_check(inf, dst, (size_t)(p - dst), f, nf);
                 if (rc) { ngbad = rc; ngwhere = k; }
             }
@@ -386,6 +422,221 @@ static void op_ngdec(void) {
     }
     fputc('\n', stdout);
     nghttp2_hd_inflate_del(inf);
+}
+
+
+/* ------------------------------------------------------------ h2.c glue */
+
+static server g_srv;
+static connection g_con;
+static request_config g_defconf;
+static buffer g_server_tag;
+static int g_ready;
+
+static int g_nr(connection *c, chunkqueue *cq, off_t max) { (void)c; (void)cq; (void)max; return 0; }
+static int g_nw(connection *c, chunkqueue *cq, off_t max) { (void)c; (void)cq; (void)max; return 0; }
+
+static void glue_init(void) {
+    if (g_ready) return;
+    g_ready = 1;
+    int devnull = open("/dev/null", O_WRONLY);
+    memset(&g_srv, 0, sizeof(g_srv));
+    g_srv.config_context = array_init(1);
+    g_srv.tmp_buf = buffer_init();
+    g_srv.errh = fdlog_init(NULL, devnull, FDLOG_FD);
+    log_set_global_errh(g_srv.errh, 0);
+    memset(&g_defconf, 0, sizeof(g_defconf));
+    g_defconf.errh = g_srv.errh;
+    g_defconf.max_request_field_size = 8192;
+    g_defconf.http_parseopts = HTTP_PARSEOPT_HEADER_STRICT | HTTP_PARSEOPT_HOST_STRICT
+                             | HTTP_PARSEOPT_HOST_NORMALIZE | HTTP_PARSEOPT_URL_NORMALIZE
+                             | HTTP_PARSEOPT_URL_NORMALIZE_UNRESERVED
+                             | HTTP_PARSEOPT_URL_NORMALIZE_CTRLS_REJECT
+                             | HTTP_PARSEOPT_URL_NORMALIZE_PATH_2F_DECODE
+                             | HTTP_PARSEOPT_URL_NORMALIZE_PATH_DOTSEG_REMOVE;
+    g_defconf.h2proto = 2;
+    g_defconf.max_keep_alive_idle = 5;
+    request_config_set_defaults(&g_defconf);
+    chunkqueue_set_tempdirs_default(NULL, 0);
+    memset(&g_con, 0, sizeof(g_con));
+    g_con.srv = &g_srv;
+    g_con.plugin_slots = calloc(256, sizeof(uint16_t));
+    g_con.plugin_ctx = calloc(8, sizeof(void *));
+    g_con.fd = -1;
+    g_con.proto_default_port = 80;
+    buffer_copy_string_len(&g_con.dst_addr_buf, CONST_STR_LEN("127.0.0.1"));
+    request_init_data(&g_con.request, &g_con, &g_srv);
+    g_con.read_queue = &g_con.request.read_queue;
+    g_con.write_queue = &g_con.request.write_queue;
+    g_con.network_read = g_nr;
+    g_con.network_write = g_nw;
+    log_epoch_secs = 1700000000;
+    log_monotonic_secs = 1000;
+    /* server.tag as configfile.c prepares it: "tag" '\0' "server" */
+    memset(&g_server_tag, 0, sizeof(g_server_tag));
+    buffer_copy_string_len(&g_server_tag, CONST_STR_LEN("ltv/1.0"));
+    buffer_string_prepare_append(&g_server_tag, 6);
+    memcpy(g_server_tag.ptr + buffer_clen(&g_server_tag) + 1, "server", 6);
+}
+
+static void con_begin(uint32_t maxfield) {
+    glue_init();
+    request_st * const h2r = &g_con.request;
+    g_defconf.max_request_field_size = maxfield;
+    h2r->conf.max_request_field_size = maxfield;
+    chunkqueue_reset(g_con.read_queue);
+    chunkqueue_reset(g_con.write_queue);
+    g_con.read_queue->bytes_in = g_con.read_queue->bytes_out = 0;
+    g_con.write_queue->bytes_in = g_con.write_queue->bytes_out = 0;
+    g_con.request_count = 0;
+    h2r->state = CON_STATE_READ;
+    h2r->http_version = HTTP_VERSION_2;
+    chunkqueue_append_mem(g_con.read_queue, CONST_STR_LEN("PRI * HTTP/2.0\r\n\r\nSM\r\n\r\n"));
+    h2_init_con(h2r, &g_con);
+    chunkqueue_reset(g_con.write_queue);   /* drop the server preface */
+    g_con.write_queue->bytes_in = g_con.write_queue->bytes_out = 0;
+}
+
+static void con_end(void) {
+    request_st * const h2r = &g_con.request;
+    if (g_con.hx) {
+        h2con * const h2c = (h2con *)g_con.hx;
+        for (uint32_t i = 0; i < h2c->rused; ++i) h2c->r[i]->http_status = 0; /*(no request_done hooks)*/
+        h2r->state = CON_STATE_ERROR;
+        h2_retire_con(h2r, &g_con);
+    }
+    chunkqueue_reset(g_con.read_queue);
+    chunkqueue_reset(g_con.write_queue);
+}
+
+/* take everything lighttpd queued for the peer */
+static unsigned char *wq_take(size_t *len) {
+    chunkqueue * const cq = g_con.write_queue;
+    size_t tot = 0;
+    for (const chunk *c = cq->first; c; c = c->next)
+        if (c->type == MEM_CHUNK) tot += buffer_clen(c->mem) - (size_t)c->offset;
+    unsigned char *b = malloc(tot + 1), *p = b;
+    for (const chunk *c = cq->first; c; c = c->next) {
+        if (c->type != MEM_CHUNK) continue;
+        size_t n = buffer_clen(c->mem) - (size_t)c->offset;
+        memcpy(p, c->mem->ptr + c->offset, n); p += n;
+    }
+    chunkqueue_reset(cq);
+    *len = tot;
+    return b;
+}
+
+static void apply_hdr_ops(request_st *r, char *ops) {
+    if (ops[0] == '-' && ops[1] == 0) return;
+    char *save = NULL;
+    for (char *t = strtok_r(ops, ",", &save); t; t = strtok_r(NULL, ",", &save)) {
+        const char op = t[0];
+        char *c1 = strchr(t + 1, ':'); if (!c1) continue; *c1++ = 0;
+        size_t kl, vl;
+        unsigned char *k = ltv_unhex(t + 1, &kl), *v = ltv_unhex(c1, &vl);
+        const enum http_header_e id = http_header_hkey_get((char *)k, kl);
+        if (op == 's') http_header_response_set(r, id, (char *)k, (uint32_t)kl, (char *)v, (uint32_t)vl);
+        else if (op == 'i') http_header_response_insert(r, id, (char *)k, (uint32_t)kl, (char *)v, (uint32_t)vl);
+        else if (op == 'a') http_header_response_append(r, id, (char *)k, (uint32_t)kl, (char *)v, (uint32_t)vl);
+        free(k); free(v);
+    }
+}
+
+#define SEP() do { if (ntokout++) fputc(' ', stdout); } while (0)
+static void op_resp(void) {
+    int ntokout = 0;
+    con_begin(8192);
+    h2con * const h2c = (h2con *)g_con.hx;
+    const int srvtag = atoi(hl_tok[1]);
+    nghttp2_hd_inflater *inf; nghttp2_hd_inflate_new(&inf);
+    struct pendupd pu = {0};
+    uint32_t sid = 1;
+    char date[40]; memset(date, 0, sizeof(date));
+    http_date_time_to_str(date, sizeof(date), log_epoch_secs);
+    for (int k = 2; k < hl_ntok; ++k) {
+        char *it = hl_tok[k];
+        if (it[0] == 'C' || it[0] == 'F') {
+            const uint32_t v = (uint32_t)strtoul(it + 1, NULL, 10);
+            uint8_t pl[6] = { 0x00, (uint8_t)(it[0] == 'C' ? 0x01 : 0x05),
+                              (uint8_t)(v >> 24), (uint8_t)(v >> 16), (uint8_t)(v >> 8), (uint8_t)v };
+            h2_parse_frame_settings(&g_con, pl, 6);
+            if (it[0] == 'C') {
+                /* the peer's decoder: new limit, and (since lighttpd never sends it) the dynamic
+                 * table size update a conformant encoder owes it, for the size lighttpd now uses */
+                nghttp2_hd_inflate_change_table_size(inf, v);
+                pend_add(&pu, v > 4096 ? 4096 : v);
+                SEP(); fputs("c", stdout);
+            }
+            else { SEP(); fputs("f", stdout); }
+            if (h2c->sent_goaway) { SEP(); fputs("goaway", stdout); break; }
+            continue;
+        }
+        if (it[0] != 'R') { SEP(); fputs("bad-op", stdout); break; }
+        char *p1 = strchr(it, '/'); if (!p1) { SEP(); fputs("bad-op", stdout); break; } *p1++ = 0;
+        char *p2 = strchr(p1, '/'); if (!p2) { SEP(); fputs("bad-op", stdout); break; } *p2++ = 0;
+        const int status = atoi(it + 1), es = atoi(p1);
+        request_st * const r = h2_init_stream(&g_con.request, &g_con);
+        r->x.h2.id = sid;
+        r->x.h2.state = H2_STATE_HALF_CLOSED_REMOTE;
+        r->state = CON_STATE_WRITE;
+        r->conf.server_tag = srvtag ? &g_server_tag : NULL;
+        apply_hdr_ops(r, p2);
+        r->http_status = status;
+        r->resp_body_finished = es ? 1 : 0;
+        h2_send_headers(r, &g_con);
+        size_t wl; unsigned char *w = wq_take(&wl);
+        /* frames: HEADERS CONTINUATION* for this stream, END_HEADERS on the last only,
+         * END_STREAM only on HEADERS, every frame within the peer's SETTINGS_MAX_FRAME_SIZE */
+        unsigned char *blk = malloc(wl + 17); size_t bl = 0;
+        unsigned char pb[16]; size_t npb = 0;
+        int bad = 0, nfr = 0, done = 0, fes = 0, rst = 0;
+        for (size_t o = 0; o < wl && !bad; ) {
+            if (wl - o < 9) { bad = 1; break; }
+            const uint32_t fl = ((uint32_t)w[o] << 16) | ((uint32_t)w[o+1] << 8) | w[o+2];
+            const int ty = w[o+3], fg = w[o+4];
+            const uint32_t fid = (((uint32_t)w[o+5] << 24) | ((uint32_t)w[o+6] << 16) | ((uint32_t)w[o+7] << 8) | w[o+8]);
+            if (wl - o - 9 < fl) { bad = 2; break; }
+            if (ty == H2_FTYPE_RST_STREAM && 0 == nfr) { rst = 1; o += 9 + fl; continue; }
+            if (done || fid != sid || fl > h2c->s_max_frame_size) { bad = 3; break; }
+            if (0 == nfr) { if (ty != H2_FTYPE_HEADERS || (fg & ~(H2_FLAG_END_STREAM|H2_FLAG_END_HEADERS))) { bad = 4; break; }
+                            fes = (fg & H2_FLAG_END_STREAM) ? 1 : 0; }
+            else if (ty != H2_FTYPE_CONTINUATION || (fg & ~H2_FLAG_END_HEADERS)) { bad = 5; break; }
+            memcpy(blk + bl, w + o + 9, fl); bl += fl;
+            if (fg & H2_FLAG_END_HEADERS) done = 1;
+            ++nfr;
+            o += 9 + fl;
+        }
+        if (!bad && !rst && !done) bad = 6;
+        if (bad) { SEP(); printf("BADFRAMES%d", bad); }
+        else if (rst) { SEP(); fputs("rst", stdout); }
+        else {
+            struct fldlist ngf = {0};
+            npb = pend_emit(&pu, pb);
+            memmove(blk + npb, blk, bl); memcpy(blk, pb, npb); bl += npb;
+            if (0 != ng_block(inf, blk, bl, &ngf)) { SEP(); fputs("NGFAIL", stdout); }
+            else {
+                SEP(); printf("ok:%d:", fes);
+                if (0 == ngf.n) fputc('-', stdout);
+                for (int i = 0; i < ngf.n; ++i) {
+                    if (i) fputc(',', stdout);
+                    if (ngf.f[i].nl == 4 && 0 == memcmp(ngf.f[i].n, "date", 4)
+                        && ngf.f[i].vl == strlen(date) && 0 == memcmp(ngf.f[i].v, date, ngf.f[i].vl)
+                        && !light_btst(r->resp_htags, HTTP_HEADER_DATE))
+                        put_field("date", 4, "AUTO", 4);
+                    else
+                        put_field(ngf.f[i].n, ngf.f[i].nl, ngf.f[i].v, ngf.f[i].vl);
+                }
+            }
+            fl_free(&ngf);
+        }
+        free(blk); free(w);
+        r->http_status = 0;
+        h2_retire_stream(r, &g_con);
+        sid += 2;
+    }
+    fputc('\n', stdout);
+    nghttp2_hd_inflate_del(inf);
+    con_end();
 }
 
 /* ------------------------------------------------------------------ main */
@@ -472,10 +723,12 @@ int main(void) {
             }
             free(enc); free(back); free(in);
         }
+        else if (0 == strcmp(op, "resp") && hl_ntok >= 2) op_resp();
         else if (0 == strcmp(op, "lsenc")) op_lsenc();
         else if (0 == strcmp(op, "ngenc")) op_ngenc();
         else if (0 == strcmp(op, "ngdec")) op_ngdec();
         else puts("bad-op");
+        fflush(stdout);
     }
     return 0;
 }
